@@ -67,7 +67,7 @@ def install(w):
             ],
             result=NoneType,
             modifies=["self._duck_conn", "self._is_closed", "self.database", "self.schema", "self.database_set", "self.schema_set", "self.db_path", "self.nop_regexes", "self._paramstyle", "self.variables",
-                      "$ghost:$cats", "$ghost:$schemas", "$ghost:$files", "$ghost:$boot", "$ghost:$macros", "$ghost:$search", "$ghost:$dlast", "$ghost:$trace_n", "$ghost:$trace", "$ghost:$trace_c", "*._variables"],
+                      "$ghost:$cats", "$ghost:$schemas", "$ghost:$files", "$ghost:$boot", "$ghost:$macros", "$ghost:$search", "$ghost:$dlast", "$ghost:$trace_n", "$ghost:$trace", "$ghost:$trace_c", "$ghost:$tres", "*._variables"],
             ensures={
                 # names reported upper-cased either way
                 "C14.names": f"self.database == {D} and self.schema == {S}",
